@@ -6,7 +6,8 @@
    statement chains along any list of legal move texts.  The remaining theorems are the text-level facts
    make_move relies on, for every UCI text.  Tied to the code by the correspondence checks (position command
    versus Spec.apply on every prefix; every generated move printed and replayed). *)
-From Walleye Require Import Model.TextMove Spec.Abs Proofs.TextMoveProofs Proofs.GenerateAbs Proofs.LegalMoves Proofs.MakeMove Proofs.MakeMoveSame.
+From Walleye Require Import Model.TextMove Spec.Abs Proofs.TextMoveProofs Proofs.GenerateAbs Proofs.LegalMoves Proofs.MakeMove Proofs.MakeMoveSame Proofs.InitialPosition Proofs.PositionGo Gen.ZobristTable.
+From Walleye Require Import Model.Fen.
 Open Scope N_scope.
 
 Theorem C04_replay_builds_the_generated_position : forall zt s x,
@@ -34,6 +35,30 @@ Theorem C04_position_moves_chain : forall zt mvs s t,
   exists s' t', play_moves zt s t (map text_of_move mvs) = Ok (s', t') /\
                 abs s' = fold_left apply mvs (abs s) /\ pos_ok1 s' /\ (HashProofs.key_ok zt s -> HashProofs.key_ok zt s').
 Proof. intros zt mvs. exact (position_moves_chain zt mvs). Qed.
+
+(* no hypothesis left: `position startpos moves ...` with any list of moves, each legal where it is played *)
+Theorem C04_startpos_moves_are_replayed : forall mvs t,
+  legal_chain (abs initial_state) mvs ->
+  exists s' t', play_moves zt_concrete initial_state t (map text_of_move mvs) = Ok (s', t') /\
+                abs s' = fold_left apply mvs (abs initial_state) /\ pos_ok1 s' /\ HashProofs.key_ok zt_concrete s'.
+Proof. exact startpos_moves_are_replayed. Qed.
+
+(* the whole `position` command, for every table: `position fen <six fields> [moves ...]` with any FEN string the
+   loader accepts that denotes a legal position (C01's sense) and any list of moves, each legal where it is played,
+   builds the position the rules give, well-formed and with key = hash *)
+Theorem C04_position_fen_command : forall zt cmds c7 b0 mvs,
+  nth_error cmds 1 = Some str_fen -> nth_error cmds 7 = Some c7 ->
+  from_fen zt (flat_map (fun c => c ++ [32%N]) (firstn 5 (skipn 2 cmds)) ++ c7) = Ok b0 ->
+  legal_position (abs b0) = true -> moves_part cmds mvs -> legal_chain (abs b0) mvs ->
+  exists b t, play_out_position zt cmds = Ok (b, t) /\ abs b = fold_left apply mvs (abs b0) /\ pos_ok1 b /\ HashProofs.key_ok zt b.
+Proof. exact position_fen_command. Qed.
+
+(* `position startpos [moves ...]` (any second word other than fen), for every table *)
+Theorem C04_position_startpos_command : forall zt cmds c1 mvs,
+  nth_error cmds 1 = Some c1 -> str_eqb c1 str_fen = false ->
+  moves_part cmds mvs -> legal_chain start_position mvs ->
+  exists b t, play_out_position zt cmds = Ok (b, t) /\ abs b = fold_left apply mvs start_position /\ pos_ok1 b /\ HashProofs.key_ok zt b.
+Proof. exact position_startpos_command. Qed.
 
 (* every UCI text of a board move means to make_move what its squares and promotion letter say: 64 x 64 x 5 texts *)
 Theorem C04_text_is_read_correctly : forall zt s a b pr,
@@ -63,6 +88,9 @@ Proof. exact point_text_roundtrip. Qed.
 Print Assumptions C04_replay_builds_the_generated_position.
 Print Assumptions C04_replay_is_the_rules_position.
 Print Assumptions C04_position_moves_chain.
+Print Assumptions C04_startpos_moves_are_replayed.
+Print Assumptions C04_position_fen_command.
+Print Assumptions C04_position_startpos_command.
 Print Assumptions C04_text_is_read_correctly.
 Print Assumptions C04_contains_corner.
 Print Assumptions C04_castle_strings_match.
